@@ -44,6 +44,7 @@ PLAIN = {
     OPT + '::copied': ('O', 'copied'),                   # Some(&v) -> Some(*v) ; None -> None
     OPT + '::zip': ('O', 'zip'),                         # (Some(a), Some(b)) -> Some((a, b)) ; otherwise None
 }
+TESTS = {OPT + '::is_some': ('O', 'Some'), OPT + '::is_none': ('O', 'None'), RES + '::is_ok': ('R', 'Ok'), RES + '::is_err': ('R', 'Err')}
 BRANCH = {'<' + RES + ' as core::ops::try_trait::Try>::branch': 'R', '<' + OPT + ' as core::ops::try_trait::Try>::branch': 'O'}
 CF = 'core::ops::control_flow::ControlFlow'
 VIDX = {'Ok': 0, 'Err': 1, 'None': 0, 'Some': 1}
@@ -113,6 +114,11 @@ def desugar(crate, body):
             # `x?` where x was just produced by a (desugared) combinator: the block is a merge point of the arms, make the
             # Ok/Err split explicit so that each arm keeps its own continuation (jump threading does the rest)
             plans.append((bi, name, BRANCH[name], None, 'branch'))
+            continue
+        if name in TESTS and len(t['args']) == 1 and npreds.get(bi, 0) >= 2:
+            # `x.err().is_some()`: a test of the variant of a value that was just produced by a desugared combinator (the block
+            # is a merge point of its arms) is written out as the switch it is
+            plans.append((bi, name, TESTS[name][0], TESTS[name][1], 'test'))
             continue
         if name in PLAIN:
             kind, how = PLAIN[name]
@@ -347,6 +353,19 @@ def desugar(crate, body):
             blk['term'] = {'k': 'switch', 'discr': _mv(d), 'discr_ty': 'isize', 'targets': tg, 'otherwise': unreach, 'at': at}
             continue
         other = v_other if variant == v_ok else v_ok
+        if how == 'test':
+            # the argument is `&x`: look at x itself
+            blk['stmts'].pop()      # the discr of the reference copy made above is not what we switch on
+            d = new_local('isize')
+            pl = {'l': subj, 'p': [['deref']]}
+            blk['stmts'].append(_assign(d, {'k': 'discr', 'place': pl, 'ty': {'R': RES + '<?, ?>', 'O': OPT + '<?>'}[kind]}, at))
+            tv = {'k': 'const', 'ty': 'bool', 'val': True, 'repr': 'true'}
+            fv = {'k': 'const', 'ty': 'bool', 'val': False, 'repr': 'false'}
+            b_yes = finish([set_dest({'k': 'use', 'op': tv})])
+            b_no = finish([set_dest({'k': 'use', 'op': fv})])
+            tg = sorted([[str(VIDX[variant]), b_yes], [str(VIDX[other]), b_no]])
+            blk['term'] = {'k': 'switch', 'discr': _mv(d), 'discr_ty': 'isize', 'targets': tg, 'otherwise': unreach, 'at': at}
+            continue
         r = new_local()
         if how == 'wrap_same':
             b_done = finish([set_dest(_agg(variant, [_mv(r)]))])
